@@ -14,6 +14,7 @@ import RtrModel.Intervals
 import RtrModel.Rtr
 import RtrModel.Hashlin
 import RtrModel.PduConv
+import RtrModel.Spki
 import RtrModel.Proto
 
 open Rtr Rtr.Gen Rtr.Proto Rtr.P
@@ -108,6 +109,18 @@ def step (line : String) : String :=
     match k.toNat? with
     | some k => reply (showOpt bv (C.tommy_inthash_u32 (BitVec.ofNat 32 k))) (toString (inthash k))
     | none => "bad-op"
+  | ["key_cmp", a1, k1, p1, s1, a2, k2, p2, s2] =>
+    -- two key entries: asn (decimal), ski (hex, 20 bytes), spki (hex, 91 bytes), source (decimal)
+    match a1.toNat?, hexToBytes? k1, hexToBytes? p1, s1.toNat?, a2.toNat?, hexToBytes? k2, hexToBytes? p2, s2.toNat? with
+    | some a1, some k1, some p1, some s1, some a2, some k2, some p2, some s2 =>
+      if k1.length ≠ 20 ∨ k2.length ≠ 20 ∨ p1.length ≠ 91 ∨ p2.length ≠ 91 then "bad-op" else
+      let mk (a : Nat) (k p : List Nat) (s : Nat) : C.S_key_entry :=
+        { C.S_key_entry.zero with asn := BitVec.ofNat 32 a, ski := k.map (BitVec.ofNat 8), spki := p.map (BitVec.ofNat 8), socket := s }
+      let num (l : List Nat) : Nat := l.foldl (fun acc b => acc * 256 + b % 256) 0
+      let mr (a : Nat) (k p : List Nat) (s : Nat) : SpkiRec := { asn := a % 4294967296, ski := num k, spki := num p, src := s }
+      reply (showOpt (fun x => toString x.toNat) (C.key_entry_cmp (mk a1 k1 p1 s1) (mk a2 k2 p2 s2)))
+            (if SpkiTable.cmp (mr a1 k1 p1 s1) (mr a2 k2 p2 s2) then "0" else "1")
+    | _, _, _, _, _, _, _, _ => "bad-op"
   | ["pdu_type", hex] =>
     match hexToBytes? hex with
     | some raw =>
